@@ -74,7 +74,45 @@ func VerifC11_having_fields_uniq_grep() {
 	in := c12InputsOpt(2, false)
 	c12ValueMode = 0
 	has := func(r []c12KV, k string) bool { _, ok := c12Get(r, k); return ok }
-	switch verifChoice("verb", 7) {
+	switch verifChoice("verb", 8) {
+	case 7:
+		// uniq -a -n / -a -c: the number of DISTINCT records (names and values), and each distinct
+		// record once with its repeat count
+		var plain [][]c12KV
+		in = append(in, in[verifChoice("third_record_repeats", 2)])
+		for _, r := range in {
+			var q []c12KV
+			for _, kv := range r {
+				if kv.k == "k" {
+					kv.v = "same"
+				}
+				q = append(q, kv)
+			}
+			plain = append(plain, q)
+		}
+		var distinct [][]c12KV
+		var counts []int
+		for _, r := range plain {
+			found := false
+			for d := range distinct {
+				if c12Same(distinct[d], r) {
+					counts[d]++
+					found = true
+				}
+			}
+			if !found {
+				distinct = append(distinct, r)
+				counts = append(counts, 1)
+			}
+		}
+		n := c12Run(verifVerb("uniq", "-a", "-n"), plain)
+		verifAssert(len(n) == 1 && len(n[0]) == 1 && n[0][0].k == "count" && n[0][0].v == string(rune('0'+len(distinct))), "C11/uniq-a-n/number-of-distinct-records")
+		c := c12Run(verifVerb("uniq", "-a", "-c"), plain)
+		verifAssert(len(c) == len(distinct), "C11/uniq-a-c/one-record-per-distinct-record")
+		for d := 0; d < len(c) && d < len(distinct); d++ {
+			verifAssert(len(c[d]) >= 1 && c[d][0].k == "count" && c[d][0].v == string(rune('0'+counts[d])), "C11/uniq-a-c/repeat-count-first")
+			verifAssert(c12Same(c[d][1:], distinct[d]), "C11/uniq-a-c/the-distinct-record-unchanged")
+		}
 	case 0:
 		got := c11Passed(in, c12Run(verifVerb("having-fields", "--at-least", "a,c"), in))
 		for i, r := range in {
